@@ -275,7 +275,7 @@ func TestPropLists(t *testing.T) {
 func TestPropTokens(t *testing.T) {
 	registerAll()
 	alpha := []string{"[", "]", ",", `"a"`, `"A"`, `"\u0041"`, "1", "1.0", "-0", "true", "null", "// c", "\n", "/* c */", " ", "x", "1e5", `"`, "/", "*"}
-	maxLen := ev.N(3, 5)
+	maxLen := ev.N(3, 6)
 	ev.KeepFirst("tokens")
 	var n, nt, bad int64
 	gen.Shortlex(alpha, maxLen, ev.Mine, func(b []byte, _ []int) {
